@@ -307,7 +307,10 @@ def sib_tests(ctx, obs, rule='SIB'):
                 and all(isinstance(e, ast.Name) for e in node.value.elts):
             all_out = [e.id for e in node.value.elts]
     if all_out is None:
-        obs.unk(rule, U + 'all_tests', 'returns (pairwise, zero, noise-ceiling) p-values', 'return is not a 3-tuple of names')
+        for w in ('pair_tests', 'zero_tests', 'nc_tests'):
+            for t in ('t-test', 'bootstrap', 'ranksum'):
+                obs.unk(rule, U + w, f'{t}: the p-values of {w} are computed as in all_tests',
+                        'all_tests does not return a 3-tuple of names: the function was restructured', where(prog, fa, fa.node))
         return
     wrappers = {'pair_tests': 0, 'zero_tests': 1, 'nc_tests': 2}
     for w, pos in wrappers.items():
@@ -318,9 +321,19 @@ def sib_tests(ctx, obs, rule='SIB'):
             if node is not None and isinstance(node.value, ast.Name):
                 outvar = node.value.id
         if outvar is None:
-            obs.unk(rule, U + w, f'{w} returns a named p-value array', 'return is not a plain name')
+            for t in ('t-test', 'bootstrap', 'ranksum'):
+                obs.unk(rule, U + w, f'{t}: the p-values of {w} are computed as in all_tests', 'return is not a plain name: the function was restructured',
+                        where(prog, fw, fw.node))
             continue
         arms = _arms(fw)
+        if not arms or not all_arms:
+            # the dispatch on the test type is not written as a chain in this function any more (a table, an enum, helpers that the
+            # pre-pass could not bring back): the three sibling clauses of this entry point are owed and undecided
+            for t in ('t-test', 'bootstrap', 'ranksum'):
+                obs.unk(rule, U + w, f'{t}: {outvar} is computed as in all_tests',
+                        'no if / elif chain on test_type in ' + ('all_tests' if not all_arms else w) + ': the dispatch was restructured',
+                        where(prog, fw, fw.node))
+            continue
         obs.check(set(arms) == set(all_arms), 'TAB', U + w, f'{w} handles the same test types as all_tests',
                   f'{sorted(arms)} vs {sorted(all_arms)}', '', where(prog, fw, fw.node))
         for t in sorted(set(arms) & set(all_arms)):
